@@ -563,7 +563,7 @@ static json tree_entry(const json &e) {
   std::string t = e.value("t", "f");
   std::string p = SS(e, "p");
   json r = json::object();
-  if (p.compare(0, g_root.size(), g_root) != 0) { r["err"] = "outside sandbox"; return r; }
+  if (p.compare(0, g_root.size(), g_root) != 0 || (p.size() > g_root.size() && p[g_root.size()] != '/')) { r["err"] = "outside sandbox"; return r; }
   if (t == "d") { mkdirs(p); }
   else if (t == "f") { if (!write_file(p, SS(e, "c"))) r["err"] = errno; if (e.contains("mode")) chmod(p.c_str(), (mode_t)I(e, "mode")); }
   else if (t == "l") { size_t sl = p.rfind('/'); if (sl != std::string::npos && sl > 0) mkdirs(p.substr(0, sl)); unlink(p.c_str()); if (symlink(SS(e, "to").c_str(), p.c_str())) r["err"] = errno; }
